@@ -3,7 +3,7 @@
    the theorems below hold for EVERY schema-valid value of EVERY listed type, for every nesting depth
    of scripts / Plutus data / metadata, with arbitrary bytes following the encoding. *)
 From CSL Require Import Base.Prelude Base.Hex Cbor.Head Codec.Schema Codec.SchemaProofs Codec.SchemaApi Codec.SchemaApiProofs
-  Ledger.Schemas Ledger.SchemasProofs.
+  Codec.SchemaSound Codec.SchemaSoundProofs Ledger.Schemas Ledger.SchemasProofs.
 
 (* the generic theorem: one proof for all schemas *)
 Theorem C01_schema_roundtrip : forall s v rest,
@@ -73,6 +73,50 @@ Example C01_api_nonvacuous :
                     None; None; None; None; None; None; None; None; None; None] in
   wfa (TransactionBody 1) x = true /\ wfv (TransactionBody 1) x = false /\ norm (TransactionBody 1) x = y /\
   enc (TransactionBody 1) x = [163; 0; 217; 1; 2; 128; 1; 128; 2; 0]%N.
+Proof. cbv zeta. repeat split; vm_compute; reflexivity. Qed.
+
+(* ---- the decoding direction: bytes from anywhere (in particular the library's own bytes, which the correspondence run
+   feeds to the model) ----
+   [sdec] = the wire-shape decoder followed by what the library does with container entries (Codec/SchemaSound.v: set
+   types drop repeated items silently, BTreeMap-backed maps sort and reject a repeated key, LinkedHashMap-backed maps
+   reject a repeated key, Vec-backed maps keep everything, map-structs reject duplicate keys).
+   Decoder soundness: whatever it returns, for ANY schema and ANY input bytes, is in the domain of the round-trip theorem. *)
+Theorem C01_dec_sound : forall s bs v rest,
+  bytes_ok bs -> sdec s bs = Ok (v, rest) -> wfv s v = true /\ bytes_ok rest.
+Proof. exact sdec_sound. Qed.
+Print Assumptions C01_dec_sound.
+
+(* hence decode-then-encode is idempotent: for v' := any decoded value of any ledger type, encoding v' and decoding again
+   (with the library-faithful decoder as well as with the wire-shape decoder) gives v' back, with any bytes following *)
+Theorem C01_decode_encode_idempotent : forall d s, In s (ledger_schemas d ++ ledger_schemas_more d) ->
+  forall bs v' rest rest', bytes_ok bs -> sdec s bs = Ok (v', rest) ->
+  sdec s (enc s v' ++ rest') = Ok (v', rest') /\ dec s (enc s v' ++ rest') = Ok (v', rest').
+Proof.
+  intros d s Hin bs v' rest rest' Hb H.
+  assert (Hs : wfs s = true).
+  { apply in_app_or in Hin as [Hin|Hin].
+    - exact (proj1 (Forall_forall _ _) (ledger_schemas_wf d) s Hin).
+    - exact (proj1 (Forall_forall _ _) (ledger_schemas_more_wf d) s Hin). }
+  split; [exact (sdec_idempotent s bs v' rest rest' Hs Hb H)|].
+  apply schema_roundtrip; [exact Hs|exact (proj1 (sdec_sound _ _ _ _ Hb H))].
+Qed.
+Print Assumptions C01_decode_encode_idempotent.
+
+(* on the domain the two decoders agree (the library-faithful one adds nothing on writer-produced bytes) *)
+Theorem C01_sdec_roundtrip : forall s v rest, wfs s = true -> wfv s v = true -> sdec s (enc s v ++ rest) = Ok (v, rest).
+Proof. exact sdec_roundtrip. Qed.
+Print Assumptions C01_sdec_roundtrip.
+
+(* non-vacuity: repeats and order on the wire.  d90102 83 01 02 01: a set with a repeated item decodes to its first
+   occurrences; a BTreeMap-backed map given out of order is sorted, with a repeated key it is an error; a LinkedHashMap-backed
+   map with a repeated key is an error; a Vec-backed map keeps it *)
+Example C01_dec_repeats :
+  let u := SUint 256 in
+  sdec (SSetOf u) [217; 1; 2; 131; 1; 2; 1]%N = Ok (VList [VNat 1; VNat 2], [])%N /\
+  sdec (SMapOf 0 KBytewise u u) [162; 2; 0; 1; 7]%N = Ok (VMap [(VNat 1, VNat 7); (VNat 2, VNat 0)], [])%N /\
+  sdec (SMapOf 0 KBytewise u u) [162; 2; 0; 2; 7]%N = Err /\
+  sdec (SMapOf 0 KInsertion u u) [162; 2; 0; 2; 7]%N = Err /\
+  sdec (SMapOf 0 KMulti u u) [162; 2; 0; 2; 7]%N = Ok (VMap [(VNat 2, VNat 0); (VNat 2, VNat 7)], [])%N.
 Proof. cbv zeta. repeat split; vm_compute; reflexivity. Qed.
 
 (* the hex entry points are the byte entry points composed with a lossless hex codec *)
